@@ -155,6 +155,8 @@ type Exec struct {
 	unlockSites map[token.Pos]string
 	constructing map[string]bool
 	globalWrites map[string]bool
+	locksTaken   map[string]bool
+	inlinedBodies []ast.Node
 	anchorHit map[*Hook]bool
 	loopHit map[string]bool
 	ghostConst map[string]bool
